@@ -18,6 +18,7 @@ func init() {
 }
 
 func runC15(r *engine.Run) {
+	r.Rule("PAIR-unlock", "see C16: in core/util/wmpt every Lock of the trie mutex is followed on every path to a return of the acquiring function by the matching Unlock (or a deferred one): a decoder that returns an error with the trie lock held makes every later operation on that trie, the next Deserialize included, block for ever")
 	r.Rule("BOUNDS", "every index expression, slice expression, fixed-size decode destination and fixed-width read in the decoder closure (CreateNode, the node Decode methods, OriginTracker.Read, wmpt.DeserializeNode, Deserialize, deserializeTrie, VerifyBlockProof, verifyProof and the Serialize/CalcHash/Encode they reach) is discharged by a guard that holds on every feasible path: constant index within a fixed array, loop variable under a constant bound <= array length, index under a dominating i < len(x), index/slice bound returned by bytes.IndexByte under a dominating idx < 0 -> return, constant slice bounds under a dominating len(x) >= k (or == k), hex.Decode into n bytes under len(src) <= 2n; anything else is reported")
 	r.Rule("NO-PANIC", "no explicit panic is reachable from a decoder entry, except three named ones whose precondition is established structurally; and no unchecked type assertion x.(T) to a concrete type occurs in the decoder closure unless x was built with T there or a comma-ok test of the same value for T holds on every path (the kind of a decoded node is chosen by the input)")
 	r.Rule("NILWIRE", "every pointer decoded from the wire (elements of PersistTrie.Pairs, the five alternatives of PersistNodeBase) is dereferenced only on paths where it tested non-nil (CBOR null decodes to a nil pointer)")
@@ -68,6 +69,7 @@ func runC15(r *engine.Run) {
 	agreeDecode(r, "AGREE-decode")
 	costLinear(r, "COST-linear")
 	domTracker(r, "DOM-tracker")
+	pairUnlock(r, "PAIR-unlock", funcsOfPkg(r, pkgWMPT), 3)
 }
 
 var decoderReach map[*ssa.Function]bool
